@@ -45,7 +45,7 @@ const (
 	vetChunk        = 1500
 	vetPerInput     = 3 * time.Second  // deadline of one input inside a chunk child
 	vetConfirm      = 8 * time.Second  // deadline of the confirming single-input child
-	vetHeapLimit    = 256 << 20        // bytes of heap a child may use (program texts are a few KB)
+	vetHeapLimit    = 128 << 20        // bytes of heap a child may use (program texts are a few KB)
 	vetAddressSpace = 6 << 30          // RLIMIT_AS of a child (hard stop)
 	vetParentSlack  = 10 * time.Second // parent-side timeout beyond the per-input deadline
 )
@@ -139,7 +139,7 @@ type vetter struct {
 }
 
 // after this many confirmed non-terminating inputs the vetting stops; what was not vetted is not run
-const vetMaxBad = 6
+const vetMaxBad = 4
 
 func newVetter(o *hc.Out, out string) *vetter {
 	dir := os.Getenv("VERIF_SCRATCH")
@@ -273,9 +273,9 @@ func (v *vetter) fails(it vetItem, perInput time.Duration) bool {
 }
 
 func (v *vetter) report(it vetItem, why string) {
-	// shrink the first two with a small budget of child runs (every failing attempt costs the detection time)
+	// shrink the first one with a small budget of child runs (every failing attempt costs the detection time)
 	text, budget := it.text, 10
-	if v.o.Stats["law_fail:parser_does_not_terminate"] >= 2 {
+	if v.o.Stats["law_fail:parser_does_not_terminate"] >= 1 {
 		budget = 0
 	}
 	shr := shrink(text, func(s string) bool {
